@@ -35,6 +35,7 @@ fn streams(t: Tier) -> Vec<StreamDef> {
         st("incomplete", t.n(39 * 27 * 4, 39 * 27 * 16, 40, 39 * 27 * 4), true),
         st("bad_utf8", t.n(6 * 8 * 40, 6 * 8 * 400, 20, 6 * 8 * 40), true),
         st("render", all, ex),
+        st("text_grid", t.n(wire::TEXT_GRID, wire::TEXT_GRID, 40, wire::TEXT_GRID), ex),
     ]
 }
 
@@ -307,6 +308,28 @@ fn run(ctx: &mut Ctx) {
             body.extend_from_slice(&post);
             let msg = wire::control_around(&body, 1, 2, 3, 4);
             expect_single(ctx, "bad_utf8", &msg, SOpts::STRICT, DecodeError::InvalidUtf8(attr));
+        }
+        "text_grid" => {
+            // one ill-formed sequence (or none) at every distance from the start, from the end and
+            // from every power-of-two offset of texts of 9..1013 octets
+            let gi = if ctx.tier == Tier::Miri { ctx.rng.below(wire::TEXT_GRID) } else { idx };
+            let (attr, len, bad, pos) = wire::text_grid_dims(gi);
+            let msg = wire::text_grid_case(&mut ctx.rng, gi);
+            ctx.rep.case(format!("text_grid:{}", gi).as_bytes(), true);
+            if bad == 0 {
+                let run = exec::decode_msg(&msg, Some(SOpts::STRICT), Rk::Slice);
+                match &run.out {
+                    Out::Ok(_) => ctx.rep.bucket("text_grid.wellformed.ok"),
+                    other => ctx.violate(
+                        format!("C20:text_grid:wellformed-rejected:{}", other.class()),
+                        format!("a well-formed ASCII text of {} octets in attribute {} is reported as {}", len, attr, out_str(other)),
+                        w_input(&msg, Some(SOpts::STRICT)),
+                    ),
+                }
+            } else {
+                let _ = pos;
+                expect_single(ctx, "bad_utf8", &msg, SOpts::STRICT, DecodeError::InvalidUtf8(attr));
+            }
         }
         "render" => {
             let x = if ctx.tier == Tier::Miri { ctx.rng.u16b() } else { idx as u16 };
